@@ -318,7 +318,7 @@ package server
 //@ func (*udpSessionManager).feed$1
 //@   props C08
 //@   nonil
-//@   requires *m != nil && !isnil((*m).io) && !isnil((*m).eventLogger) && *msg != nil
+//@   requires *m != nil && !isnil((*m).io) && !isnil((*m).eventLogger)
 //@   ensures isnil(err) ==> !isnil(conn) && allowUDP(payload((*m).io), actualAddr)
 //@   modifies any
 
@@ -345,3 +345,39 @@ package server
 //@   nonil
 //@   requires msg != nil && m.m != nil
 //@   modifies any
+
+// ---------------------------------------------------------------------------
+// One direction of the TCP relay (C06). Source and sink are the byte-source / byte-sink
+// models of io.spec: a read may fail or come up short at any point, a write may fail.
+// copyBufferLog forwards what it reads, in order, nothing else; every chunk is offered to the
+// logger before it is written, exactly with its length; a veto writes nothing of that chunk.
+//@ ghost var logSum Int
+//@ ghost var lastLogN Int
+//@ ghost var lastLogOK Bool
+//@ fnfield copyBufferLog.log(n) (ok)
+//@ hook after call copyBufferLog.log(n) (ok) in copyBufferLog
+//@   update logSum = logSum + ite(ok, n, 0)
+//@   update lastLogN = n
+//@   update lastLogOK = ok
+//@ guard call io.Writer.Write(w, p) in copyBufferLog
+//@   props C06
+//@   requires w == dst && lastLogOK && lastLogN == len(p) && len(p) > 0
+// the pool hands out pointers to 32 KiB buffers (it is filled only by its New and by the Put below)
+//@ axiom POOL_BUF (x any): tagof(x) == typetag("*[]byte") && payload(x) != 0 && len(*ptrof(x, "*[]byte")) == 32768
+//@ hook after call (*Pool).Get(p) (x) in copyBufferLog
+//@   use POOL_BUF(x)
+//@ spec func cSrc(src) = src(payload(src))
+//@ spec func cSnk(dst) = snk(payload(dst))
+//@ func copyBufferLog
+//@   props C06
+//@   requires !isnil(dst) && !isnil(src) && log != nil
+//@   ensures sel(wlen, cSnk(dst)) - old(sel(wlen, cSnk(dst))) <= sel(rpos, cSrc(src)) - old(sel(rpos, cSrc(src)))
+//@   ensures forall(i, 0, sel(wlen, cSnk(dst)) - old(sel(wlen, cSnk(dst))), sel(wdata, cSnk(dst), old(sel(wlen, cSnk(dst))) + i) == sel(rdata, cSrc(src), old(sel(rpos, cSrc(src))) + i))
+//@   ensures isnil(ret) ==> sel(wlen, cSnk(dst)) - old(sel(wlen, cSnk(dst))) == sel(rpos, cSrc(src)) - old(sel(rpos, cSrc(src)))
+//@   ensures sel(wlen, cSnk(dst)) - old(sel(wlen, cSnk(dst))) <= logSum - old(logSum) && logSum - old(logSum) <= sel(wlen, cSnk(dst)) - old(sel(wlen, cSnk(dst))) + 32768
+//@   modifies any
+//@   loop 0
+//@     invariant len(buf) == 32768 && !isnil(dst) && !isnil(src) && log != nil
+//@     invariant sel(wlen, cSnk(dst)) - old(sel(wlen, cSnk(dst))) == sel(rpos, cSrc(src)) - old(sel(rpos, cSrc(src))) && sel(rpos, cSrc(src)) >= old(sel(rpos, cSrc(src)))
+//@     invariant logSum - old(logSum) == sel(rpos, cSrc(src)) - old(sel(rpos, cSrc(src)))
+//@     invariant forall(i, 0, sel(wlen, cSnk(dst)) - old(sel(wlen, cSnk(dst))), sel(wdata, cSnk(dst), old(sel(wlen, cSnk(dst))) + i) == sel(rdata, cSrc(src), old(sel(rpos, cSrc(src))) + i))
